@@ -90,7 +90,12 @@ func runSchedule(db *NoKV.DB, sc *schedule, out *vt.Writer) (ok bool) {
 		ev["s"] = sc.ID
 		out.Emit(ev)
 	}
-	keys := []string{fmt.Sprintf("s%06d/k1", sc.ID), fmt.Sprintf("s%06d/k2", sc.ID)}
+	// key k0 is written by every commit, key k<t> only by thread t: a commit that becomes visible late
+	// cannot hide behind a newer version of the same key
+	keys := []string{fmt.Sprintf("s%06d/k0", sc.ID)}
+	for ti := range sc.Progs {
+		keys = append(keys, fmt.Sprintf("s%06d/k%d", sc.ID, ti+1))
+	}
 	prefix := []byte(fmt.Sprintf("s%06d/", sc.ID))
 	for ti, prog := range sc.Progs {
 		tid := ti + 1
@@ -112,13 +117,14 @@ func runSchedule(db *NoKV.DB, sc *schedule, out *vt.Writer) (ok bool) {
 				case "TxCommit":
 					ncommit++
 					tok := fmt.Sprintf("c%d.%d", tid, ncommit)
-					for _, k := range keys {
+					mine := []string{keys[0], keys[tid]}
+					for _, k := range mine {
 						if err := txn.Set([]byte(k), []byte(tok)); err != nil {
 							panic(err)
 						}
 					}
 					err := txn.Commit()
-					ev := vt.Ev{"e": "TxCommit", "t": tid, "tok": tok, "ok": err == nil}
+					ev := vt.Ev{"e": "TxCommit", "t": tid, "tok": tok, "ok": err == nil, "ks": []string{mine[0][8:], mine[1][8:]}}
 					if err != nil {
 						ev["err"] = err.Error()
 					}
